@@ -87,5 +87,11 @@ claim("C10", "other",
       ASSUME + " Inventory table /verif/tables/optional_tails.json confirmed by reading; error texts and range rules outside the property are not decided.",
       "error-use dataflow (dominance gates, phi-edge facts) + inventory comparison + path reachability on SSA", "DESIGN.md 4 C10")
 
+
+claim("C12", "other",
+      "Narrow claim (necessary conditions only): the INCR/DECR counter addition and the DECRBY negation are guarded by rejecting comparisons against math.MaxInt/MinInt and a non-integer stored value is rejected before use; the GETRANGE/SUBSTR slice is proven in range for every length/start/end by the inequality prover; CONFIG SET/GET agree on map, key and reply order; ZREVRANGE/ZREVRANGEBYSCORE reverse by 2 exactly on the WITHSCORES edge; the derived commands call the primitives as the oracle table says (operands, order, sign, concatenation order, request-ordered iteration, mirrored ZREVRANGE indexes, swapped bounds and exclusive markers). Reply-value equality with Redis (clamping values, HKEYS/HVALS pairing, LIMIT under reversal) is not decided.",
+      ASSUME + " Primitive handler operations behave like Redis (granted by the property).",
+      "dominating overflow-guard check + ABCD-lite bounds proof + symbolic signature comparison on SSA", "DESIGN.md 4 C12")
+
 for _k in list(CLAIMS):
     NA.pop(_k, None)
